@@ -61,11 +61,43 @@ class C06(CacheProp):
             # leave no gated item pending behind the pattern: the generator's own scripts count their tokens
             pat += ["tok"] * min(60, 2 + sum(1 for o in ops[:pos] + pat if o.startswith("set ")))
             c.ops = ops[:pos] + pat + ops[pos:]
+        # a Del of ANOTHER key that shares the primary hash (different, non-zero conflict hash) must leave the entry
+        # retrievable: it was not overwritten, deleted, cleared, and has no TTL
+        pd = ctx.probe_data or {"item_size": 56, "start": cachegen.START_DEFAULT}
+        g = cachegen.Gen(rng, pd)
+        for j in range(max(2, n // 40)):
+            h = cachegen.mix(950 + j)
+            h2 = cachegen.mix(990 + j)
+            lag = rng.randrange(0, 3)
+            ops = [["set", h, 10, 11, 30, 0], ["set", h2, 20, 12, 30, 0]] + [["tok"]] * (2 - min(lag, 2)) + \
+                  ([["wait"], ["get", h, 10]] if lag == 0 else []) + \
+                  [["del", h, 11], ["get", h, 10]] + [["tok"]] * 4 + [["wait"], ["get", h, 10], ["get", h2, 20], ["dump"],
+                   ["del", h2, 21], ["tok"], ["wait"], ["get", h2, 20], ["get", h, 10]]
+            cases.append(cachegen.Case("cd%d" % j, "cache", g.header(10 ** 6, 8, True, True, 0, 5), ops,
+                                       tags=["profile:colldel"]))
         return cases
 
     def _walk(self, case, il):
         """reference map with an explicit FIFO of pending writes; -> (failures, number of claims checked)"""
         fails, claims = [], 0
+        if "profile:colldel" in case.tags:
+            # after the last Wait both values (never deleted under their own key) are served
+            tr = cachegen.Trace(case, il)
+            want = {}
+            waited = False
+            for s in tr.steps:
+                op, res = s["op"], s["res"]
+                if op[0] == "set" and res[:1] == ["true"]:
+                    want[(op[1], op[2])] = op[3]
+                if op[0] == "wait" and res[:1] == ["ok"]:
+                    waited = True
+                if op[0] == "get" and waited and (op[1], op[2]) in want:
+                    claims += 1
+                    if res != [want[(op[1], op[2])], "true"]:
+                        fails.append("op %d: Get(%s,%s) returned %s although the key was Set (value %s), never deleted, and "
+                                     "only a different key with the same primary hash was deleted" % (
+                                         s["n"], op[1], op[2], " ".join(res), want[(op[1], op[2])]))
+            return fails, claims
         if not any(t.startswith("profile:roomy") for t in case.tags) and not any(t.startswith("corpus:") for t in case.tags):
             return fails, claims
         mode = case.args[4]                # Config.ShouldUpdate: "0" none, "1" only a larger value id, "2" never
